@@ -55,7 +55,7 @@ var c26Assumptions = []string{
 	"while finding " + c26FindMergeKeylessCI + " is listed open, a disagreement on a join that involves a keyless table and a collated key column and whose dolt plan contains a MergeJoin is attributed to it (counted as excluded_known); the pinned sub-test reports it",
 	"while finding " + c26FindHashJoinExtra + " is listed open (not minimised, replays saved), a disagreement on a join with a collated key column or a BIGINT = BIGINT UNSIGNED key whose dolt plan contains a HashLookup and where dolt returns more rows than the reference is attributed to it (counted as excluded_known)",
 	"while findings " + c26FindCountColIndex + " / " + c26FindLeftOnLiteral + " are listed open (not minimised, replays saved), disagreements of exactly their plan shapes (COUNT(col) over an unfiltered index scan; LEFT JOIN with a literal comparison in ON run as LeftOuterLookupJoin/LeftOuterHashJoin returning more rows) are attributed to them (counted as excluded_known)",
-	"grammar exclusion (go-mysql-server bug shared by both engines): a disagreement on a join with a _ci/_ai_ci collated key column whose dolt plan contains a HashLookup is not compared (the hash join is wrong in both engines and each returns a different wrong subset; counted as excluded_known, documented by the pinned sub-test pinned_hashjoin_accent_insensitive_key)",
+	"grammar exclusion (go-mysql-server bug shared by both engines): a disagreement on a join with a _ci/_ai_ci collated key column where either engine's plan contains a HashLookup is not compared (the hash join is wrong in both engines and each returns a different wrong subset; counted as excluded_known, documented by the pinned sub-test pinned_hashjoin_accent_insensitive_key)",
 	"grammar exclusion (go-mysql-server bug shared by both engines): no negated equality (<>, NOT IN, NOT BETWEEN, NOT(...)) on DECIMAL columns: the shared range builder turns it into the range (NULL, ∞) and the memory engine drops the filter (returns the rows equal to the literal); avoided draws are counted as excluded_known",
 	"grammar exclusion (go-mysql-server bug shared by both engines): no `<=>` on columns with a case/accent-insensitive collation (as a filter it compares bytes, as an index range it compares by collation: `c <=> 'á'` matches 'a' only through an index); replaced operators are counted as excluded_known",
 	"grammar exclusion (go-mysql-server bug shared by both engines): integer columns are not compared with fractional literals (`intcol > 11.75` becomes the range (12, ∞) under a merge-join plan and loses 12 in both engines); avoided draws are counted as excluded_known",
@@ -836,8 +836,9 @@ func (c *qCase) runQuery(q qQuery) {
 		// collation is wrong in BOTH engines (the hash key does not fold what the collation folds:
 		// 'a' never meets 'ä' under utf8mb4_0900_ai_ci; 9 of 30 rows in the generated case), and the
 		// two engines return different wrong subsets. Pinned as finding c26FindHashJoinAI.
-		dp, _ := plan()
-		if strings.Contains(strings.Join(dp, "\n"), "HashLookup") {
+		dp, mp := plan()
+		if strings.Contains(strings.Join(dp, "\n"), "HashLookup") || strings.Contains(strings.Join(mp, "\n"), "HashLookup") {
+			// either engine may be the one that picked the (wrong) hash join
 			c.rec.Excluded(1)
 			c.rec.Class("excluded:shared_hashjoin_collated_key", 1)
 			return
